@@ -12,6 +12,9 @@ import (
 // props maps a property id to its run function.
 var props = map[string]func(*Ctx){}
 
+// propsExtra: further correspondences of a property, run after the main one
+var propsExtra = map[string][]func(*Ctx){}
+
 func main() {
 	if len(os.Args) < 2 {
 		fatal("usage: harness run|extract ...")
@@ -55,6 +58,9 @@ func runCmd(args []string) {
 		Res: res, VerifDir: *verif, ReplayIn: *replay, MaxFail: *maxFail, failCount: map[string]int{}}
 	start := time.Now()
 	run(ctx)
+	for _, extra := range propsExtra[*prop] {
+		extra(ctx)
+	}
 	res.WallS = time.Since(start).Seconds()
 	res.DistinctNontrivial = len(res.nontrivial)
 	b, _ := json.MarshalIndent(res, "", " ")
